@@ -184,7 +184,7 @@ fn normalise_loc(loc: &str) -> String {
 
 /// Run `f`, turning a panic into `Err("file:line: message")`.
 pub fn catch<T>(f: impl FnOnce() -> T) -> Result<T, String> {
-    QUIET.with(|q| q.set(true));
+    QUIET.with(|q| q.set(std::env::var("VERIF_DEBUG").is_err()));
     LAST_PANIC.with(|p| *p.borrow_mut() = None);
     let r = std::panic::catch_unwind(std::panic::AssertUnwindSafe(f));
     QUIET.with(|q| q.set(false));
@@ -424,7 +424,7 @@ fn mix(a: u64, b: u64) -> u64 {
 /// Evaluate one case either in-process or through a worker; hangs are
 /// confirmed by a second, solitary run with a 10x deadline.
 fn eval(check: &dyn Check, worker: &mut Option<Worker>, choice: &[u8], describe: bool, inconclusive: &mut Vec<String>) -> Outcome {
-    if !check.isolated() {
+    if !check.isolated() || std::env::var("VERIF_NO_ISOLATION").is_ok() {
         return match catch(|| check.run(choice, describe)) {
             Ok(o) => o,
             Err(p) => Outcome::fail(panic_sig(&p), p),
@@ -599,10 +599,11 @@ pub fn run_check(check: &dyn Check, tier: Tier) -> i32 {
                     let strat = choice_strategy(plan.max_len);
                     let worker = std::cell::RefCell::new(None::<Worker>);
                     let counting = std::cell::Cell::new(true);
+                    let no_shrink_reported = std::cell::Cell::new(false);
                     let local_n = std::cell::Cell::new(0usize);
                     let last_fail = std::cell::RefCell::new(None::<(String, String)>);
                     let res = runner.run(&strat, |choice: Vec<u8>| {
-                        if stop.load(Ordering::Relaxed) && counting.get() {
+                        if stop.load(Ordering::Relaxed) && (counting.get() || no_shrink_reported.get()) {
                             // another thread found a failure; finish quickly
                             return Ok(());
                         }
@@ -629,6 +630,18 @@ pub fn run_check(check: &dyn Check, tier: Tier) -> i32 {
                                 if let Some(k) = is_known(known, check.id(), sig) {
                                     if counting.get() {
                                         *stats.lock().unwrap().known_hits.entry(known[k].signature.clone()).or_default() += 1;
+                                    }
+                                    Ok(())
+                                } else if sig == "hang" || sig.starts_with("abort:") {
+                                    // do not shrink hangs / process deaths (every shrink step would cost a full deadline)
+                                    if counting.get() {
+                                        counting.set(false);
+                                        no_shrink_reported.set(true);
+                                        stop.store(true, Ordering::Relaxed);
+                                        let mut f = failure.lock().unwrap();
+                                        if f.is_none() {
+                                            *f = Some(Failure { choice: choice.clone(), sig: sig.clone(), detail: detail.clone() });
+                                        }
                                     }
                                     Ok(())
                                 } else {
